@@ -26,7 +26,7 @@ ASSUMPTIONS = [
 ]
 BUDGET = {
     "quick": {"shards": 16, "examples": 24, "wall": 110},
-    "thorough": {"shards": 16, "examples": 450, "wall": 1200},
+    "thorough": {"shards": 16, "examples": 4500, "wall": 900},
 }
 
 
